@@ -122,13 +122,14 @@ def check(ctx: Ctx) -> None:
     # ---- C12.align: every key is paired with the value produced for it (keys unsorted, both schedules, sync/async mixes)
     from ..fdvalues import EnumVal
 
-    key_lists = [["3", "1", "2"], ["2", "2", "1"], ["10", "9"], []]
+    long_list = [str(i) for i in range(11, 34)]  # 23 keys: longer than any plausible batch/chunk size, not a multiple of it
+    key_lists = [["3", "1", "2"], ["2", "2", "1"], ["10", "9"], [], long_list]
     for keys in key_lists:
         for order in ("fwd", "rev"):
             for async_keys in ((), tuple(keys[:1]), tuple(keys[1:])):
                 def run(ch, keys=keys, order=order, async_keys=async_keys):
                     go = (lambda n: range(n)) if order == "fwd" else (lambda n: list(reversed(range(n))))
-                    states = {"1": F, "2": U, "3": K, "9": U, "10": F}
+                    states = {"1": F, "2": U, "3": K, "9": U, "10": F, **{k: (F, U, K)[int(k) % 3] for k in long_list}}
                     h = Harness(model, ch, rc={k: states[k] for k in set(keys)}, fc={f"90{k}": (k in ("1", "10"), f"m{k}") for k in set(keys)},
                                 hints={f"50{k}": ("" if k == "2" else f"text {k}") for k in set(keys)}, async_keys=tuple(async_keys) + tuple(f"90{k}" for k in async_keys), gather_order=go)
                     it = h.it
